@@ -402,6 +402,27 @@ func wsRules(p *Prog, r *Report, R string) {
 				}
 			}
 		}
+		// the "some offered sub-protocol matched" flag only ever goes from false to true
+		mono, nphi := true, 0
+		EachInstr(sh.fn, func(in ssa.Instruction) {
+			ph, ok := in.(*ssa.Phi)
+			if !ok || ph.Comment != "matched" {
+				return
+			}
+			nphi++
+			for _, e := range ph.Edges {
+				switch x := e.(type) {
+				case *ssa.Const:
+				case *ssa.Phi:
+					if x.Comment != "matched" {
+						mono = false
+					}
+				default:
+					mono = false
+				}
+			}
+		})
+		r.Check(nphi > 0 && mono, R, "ws/any-offered-subprotocol-may-match", sh.Pos(), "the match flag is only ever set (to true) inside the loop over the offered sub-protocols: any position in the client's list matches", "the match flag is overwritten by each offered sub-protocol (or is no longer a set-once flag): a client that offers <name>.sp.nanomsg.org followed by another sub-protocol is refused")
 		r.Check(okm, R, "ws/listener-requires-self-name", sh.Pos(), `requires SelfName + ".sp.nanomsg.org"`, "ServeHTTP does not compare the offered sub-protocols with <SelfName>.sp.nanomsg.org")
 		he := sh.Ev("call", "http.Error")
 		okOrder := len(up) == 1 && len(he) >= 1
